@@ -19,6 +19,68 @@ static void bad (const char *table, long idx, long idx2, long got, long want)
 }
 #define CHECK(table, i, j, got, want) do { checked++; if ((long) (got) != (long) (want)) bad (table, i, j, (long) (got), (long) (want)); } while (0)
 
+/* ---- "generated at first use": every history of up to 3 first uses of codec 1 in a pristine process ----
+ * alphabet: I = of_rs_init(), N = of_rs_new()/of_rs_free() directly, E = encoder session building a repair symbol,
+ * D = decoder session (of_decode_with_new_symbol) that has to rebuild a lost source symbol, S = the same through
+ * of_set_available_symbols + of_finish_decoding. Each of them needs the tables, so after each step all four tables
+ * must equal the field, and the sessions must have worked. */
+#include "lib_common/of_openfec_api.h"
+static const char FU[] = "INEDS";
+static char g_hist[8];
+static void fu_tables (int step)
+{
+	long a, b;
+	for (a = 0; a < 2 * GF_SIZE; a++) if (of_rs_gf_exp[a] != gfr_exp (8, (unsigned) (a % 255))) { vf_viol ("C14", "table=rs_gf_exp|kind=wrong-entry|firstuse", "firstuse hist=%s step=%d i=%ld", g_hist, step, a); break; }
+	for (a = 1; a < 256; a++) if (of_rs_gf_log[a] != (int) gfr_log (8, (unsigned) a) || of_rs_inverse[a] != gfr_inv (8, (unsigned) a)) { vf_viol ("C14", "table=rs_gf_log/rs_inverse|kind=wrong-entry|firstuse", "firstuse hist=%s step=%d i=%ld", g_hist, step, a); break; }
+	for (a = 0; a < 256; a++) { for (b = 0; b < 256; b++) if (of_gf_mul_table[a][b] != gfr_mul (8, (unsigned) a, (unsigned) b)) { vf_viol ("C14", "table=rs_gf_mul_table|kind=wrong-entry|firstuse", "firstuse hist=%s step=%d i=%ld j=%ld", g_hist, step, a, b); a = 999; break; } }
+	vf_stat_add (st_trans, 2 * GF_SIZE + 2 * 255 + 65536); vf_stat_add (st_exec, 2 * GF_SIZE + 2 * 255 + 65536); vf_stat_add (st_dn, 65536 - 511);
+}
+static void fu_session (int kind, int step)
+{
+	enum { K = 5, R = 4, L = 16 };
+	static unsigned char src[K][L], rep[R][L], got[K][L];
+	of_session_t *s = NULL; of_rs_parameters_t p; void *tab[K + R], *st[K]; int i, j, bad = 0;
+	memset (&p, 0, sizeof p); p.nb_source_symbols = K; p.nb_repair_symbols = R; p.encoding_symbol_length = L;
+	for (i = 0; i < K; i++) for (j = 0; j < L; j++) src[i][j] = (unsigned char) (vf_mix64 ((uint64_t) (i * 37 + j * 101 + 5)) >> 13);
+	/* reference repair symbols (systematic Vandermonde generator) */
+	{ unsigned char *G = malloc ((K + R) * K); rsr_generator (8, K, K + R, G); for (i = 0; i < R; i++) for (j = 0; j < L; j++) { int c; unsigned v = 0; for (c = 0; c < K; c++) v ^= gfr_mul (8, G[(K + i) * K + c], src[c][j]); rep[i][j] = (unsigned char) v; } free (G); }
+	if (of_create_codec_instance (&s, OF_CODEC_REED_SOLOMON_GF_2_8_STABLE, kind == 'E' ? OF_ENCODER : OF_DECODER, 0) != OF_STATUS_OK || of_set_fec_parameters (s, (of_parameters_t *) &p) != OF_STATUS_OK) { vf_viol ("C14", "kind=session-refused|firstuse", "firstuse hist=%s step=%d", g_hist, step); return; }
+	if (kind == 'E') {
+		unsigned char out[R][L];
+		for (i = 0; i < K; i++) tab[i] = src[i];
+		for (i = 0; i < R; i++) { tab[K + i] = out[i]; if (of_build_repair_symbol (s, tab, (UINT32) (K + i)) != OF_STATUS_OK || memcmp (out[i], rep[i], L)) bad = 1; }
+	} else {
+		/* sources 1 and 3 lost, repairs 0 and 2 received */
+		memset (tab, 0, sizeof tab);
+		tab[0] = src[0]; tab[2] = src[2]; tab[4] = src[4]; tab[K] = rep[0]; tab[K + 2] = rep[2];
+		if (kind == 'D') { for (i = 0; i < K + R; i++) if (tab[i] && of_decode_with_new_symbol (s, tab[i], (UINT32) i) != OF_STATUS_OK) bad = 1; }
+		else { if (of_set_available_symbols (s, tab) != OF_STATUS_OK) bad = 1; if (of_finish_decoding (s) != OF_STATUS_OK) bad = 1; }
+		if (!of_is_decoding_complete (s)) bad = 1;
+		memset (st, 0, sizeof st);
+		if (of_get_source_symbols_tab (s, st) != OF_STATUS_OK) bad = 1;
+		for (i = 0; i < K; i++) { if (!st[i] || memcmp (st[i], src[i], L)) bad = 1; else memcpy (got[i], st[i], L); if (st[i] && st[i] != src[i]) free (st[i]); }
+	}
+	of_release_codec_instance (s);
+	if (bad) vf_viol ("C14", kind == 'E' ? "kind=encoder-wrong|firstuse" : "kind=decoder-wrong|firstuse", "firstuse hist=%s step=%d", g_hist, step);
+}
+static void fu_item (long it, void *arg)
+{
+	int len = it < 5 ? 1 : it < 30 ? 2 : 3, x = (int) (it < 5 ? it : it < 30 ? it - 5 : it - 30), i;
+	(void) arg;
+	vf_slot_set_prop ("C14");
+	for (i = 0; i < len; i++) { g_hist[i] = FU[x % 5]; x /= 5; }
+	g_hist[len] = 0;
+	for (i = 0; i < len; i++) {
+		snprintf (vf_slot (), VF_SLOT_LEN, "firstuse hist=%s step=%d", g_hist, i);
+		switch (g_hist[i]) {
+		case 'I': of_rs_init (); break;
+		case 'N': { void *c = of_rs_new (3, 5); if (!c) vf_viol ("C14", "kind=of_rs_new-failed|firstuse", "firstuse hist=%s step=%d", g_hist, i); else of_rs_free (c); break; }
+		default: fu_session (g_hist[i], i);
+		}
+		fu_tables (i);
+	}
+}
+
 int main (int argc, char **argv)
 {
 	long a, b;
@@ -28,6 +90,16 @@ int main (int argc, char **argv)
 	st_exec = vf_stat_id ("executions");
 	st_dn = vf_stat_id ("distinct_nontrivial");
 
+	if (vf_replay_case () && !strncmp (vf_replay_case (), "firstuse hist=", 14)) {
+		const char *h = vf_replay_case () + 14; long it = 0, mul = 1, base = 0; int n = 0;
+		while (h[n] && strchr (FU, h[n]) && n < 3) { it += (strchr (FU, h[n]) - FU) * mul; mul *= 5; n++; }
+		base = n == 1 ? 0 : n == 2 ? 5 : 30;
+		vf_run_isolated (fu_item, base + it, NULL, 60, NULL, NULL, 0);
+		vf_finish ();
+		return 0;
+	}
+	/* first-use histories, each in its own pristine process (the parent has not touched codec 1 yet) */
+	{ long it; for (it = 0; it < 5 + 25 + 125; it++) { char k[64] = "", f[64] = ""; if (vf_run_isolated (fu_item, it, NULL, 60, k, f, sizeof k) != 0) vf_viol ("C14", "kind=crash|firstuse", "firstuse item=%ld %s %s", it, k, f); } vf_outcome ("firstuse_histories", 155); }
 	/* ---- GF(2^4) precomputed tables of codec 2 ---- */
 	for (a = 0; a < 16; a++) {
 		CHECK ("gf_2_4_exp", a, 0, of_gf_2_4_exp[a], gfr_exp (4, (unsigned) a));
